@@ -49,6 +49,7 @@ package dig
 //@ typeinv[scope-wf] (s *Scope) s.providers != nil && s.decorators != nil && s.values != nil && s.decoratedValues != nil
 //@   && s.groups != nil && s.decoratedGroups != nil && s.gh != nil && s.rand != nil
 //@   && isInvoker(s.invokerFn) && s.clockSrc != nil
+//@   && s.values != s.decoratedValues && s.values != s.decoratedGroups && s.decoratedValues != s.decoratedGroups
 
 //@ typeinv[scope-registrations-nonnil] (s *Scope) (forall k key :: k in s.decorators ==> s.decorators[k] != nil)
 //@   && (forall k key, i int :: 0 <= i && i < len(s.providers[k]) ==> s.providers[k][i] != nil)
@@ -159,12 +160,6 @@ package dig
 //@   requires c != nil
 //@   allocates
 //@   ensures err == nil || is(err, errMissingTypes)
-
-//@ func (sr *stagingContainerWriter) Commit(cw) ()
-//@   trusted
-//@   requires sr != nil && cw != nil
-//@   modifies map(Scope.values), map(Scope.groups), elems(reflect.Value)
-//@   allocates
 
 //@ func (n *constructorNode) Call(c) (err)
 //@   ensures[C03:knot-mono] knotMono()
@@ -280,6 +275,7 @@ package dig
 //@   modifies @written
 //@   allocates
 //@   ensures[C07:extract-writes-own-maps] wrValues(cw, decorated) && wrGroups(cw, decorated)
+//@   ensures newKeysShaped(cw, decorated)
 
 //@ func (rl resultList) ExtractList(cw, decorated, values) (err)
 //@   requires wfWriter(cw) && wfResultList(rl) && len(values) <= len(rl.resultIndexes)
@@ -295,6 +291,8 @@ package dig
 //@   loop range values #1: invariant[C07:no-write-before-errors] unchangedAll()
 //@   loop range values #1: invariant[C07:errors-seen-so-far] forall i int :: 0 <= i && i < $i && rl.resultIndexes[i] < 0 ==> !isErrorValue(rvIface(values[i]))
 //@   loop range values #2: invariant[C07:extract-loop-writes-own-maps] wrValues(cw, decorated) && wrGroups(cw, decorated)
+//@   loop range values #2: invariant[C09:extract-loop-new-keys-shaped] newKeysShaped(cw, decorated)
+//@   ensures[C09:extract-list-new-keys-shaped] newKeysShaped(cw, decorated)
 
 // a reflected interface value holds a non-nil error
 //@ pure func isErrorValue(x Any) Bool = isA(x, error)
@@ -377,6 +375,7 @@ package dig
 //@   let none = forall i int :: 0 <= i && i < S.nanc ==> at(storesToRoot_1, !(k in S.anc[i].values) && len(S.anc[i].providers[k]) == 0)
 //@   loop range c.storesToRoot() #1: invariant[C08:nearest-first] forall j int :: 0 <= j && j < $i ==> !(k in S.anc[j].values) && len(S.anc[j].providers[k]) == 0
 //@   loop range c.storesToRoot() #1: invariant[C08:no-providers-yet] len(providers) == 0
+//@   loop range providers #1: invariant[C03:knot-mono-loop] knotMono()
 //@   ensures[C12:decorator-result-wins] decFound ==> v == ret(buildWithDecorators_1, 0) && err == ret(buildWithDecorators_1, 2)
 //@   ensures[C12:decorated-value-beats-provided] !decFound && ret(getDecoratedValue_1, 1) ==> v == ret(getDecoratedValue_1, 0) && err == nil
 //@        && sameSince(getDecoratedValue_1, @knot)
@@ -544,3 +543,128 @@ package dig
 //@   site call (dig.containerStore).getValueGroup #1: assert[C10:members-read-from-every-enclosing-scope,C08:members-read-from-every-enclosing-scope] isScope($recv) && scopeOf($recv) == S.anc[$i]
 //@   site call (dig.containerStore).getValueGroup #1: assert[C10:members-of-this-group-only,C09:members-of-this-group-only] $arg0 == pt.Group && $arg1 == elem(pt.Type)
 //@   site call reflect.Append #1: assert[C10:every-member-appended] $arg0 == result && $arg1 == ret(getValueGroup_1, 0)
+
+// ---------------------------------------------------------------------------
+// writers: which key receives which value (C01, C09, C10)
+
+//@ typeinv[staging-maps] (w *stagingContainerWriter) w.values != nil && w.groups != nil
+
+//@ pure func cwValues(cw Any, decorated Bool) map[key]reflect.Value =
+//@   is(cw, ptr(stagingContainerWriter)) ? as(cw, ptr(stagingContainerWriter)).values
+//@   : (decorated ? as(cw, ptr(Scope)).decoratedValues : as(cw, ptr(Scope)).values)
+//@ pure func cwGroups(cw Any) map[key][]reflect.Value =
+//@   is(cw, ptr(stagingContainerWriter)) ? as(cw, ptr(stagingContainerWriter)).groups : as(cw, ptr(Scope)).groups
+
+// keys that an Extract adds to the writer's value map carry no group name,
+// keys it adds to the group map carry no value name
+//@ pure func newKeysShaped(cw Any, decorated Bool) Bool =
+//@   (forall k2 key :: k2 in cwValues(cw, decorated) && !old(k2 in cwValues(cw, decorated)) ==> k2.group == "")
+//@   && (forall k2 key :: k2 in cwGroups(cw) && !old(k2 in cwGroups(cw)) ==> k2.name == "")
+
+//@ func (rs resultSingle) Extract(cw, decorated, v) ()
+//@   requires wfWriter(cw) && (is(cw, ptr(stagingContainerWriter)) ==> !decorated)
+//@   modifies @written
+//@   allocates
+//@   let m = cwValues(cw, decorated)
+//@   let k = vkey(rs.Type, rs.Name)
+//@   ensures[C07:extract-writes-own-maps] wrValues(cw, decorated) && wrGroups(cw, decorated)
+//@   ensures[C09:value-stored-under-its-declared-key,C01:value-stored-under-its-declared-key] k in m && m[k] == v
+//@   ensures[C09:as-keys-share-the-instance] !decorated ==> forall i int :: 0 <= i && i < len(rs.As) ==> vkey(rs.As[i], rs.Name) in m && m[vkey(rs.As[i], rs.Name)] == v
+//@   ensures[C09:no-other-key-written] forall k2 key :: k2 != k && (decorated || (forall i int :: 0 <= i && i < len(rs.As) ==> k2 != vkey(rs.As[i], rs.Name)))
+//@        ==> (k2 in m <==> old(k2 in m)) && m[k2] == old(m[k2])
+//@   ensures[C10:single-result-feeds-no-group] forall g map[key][]reflect.Value :: existed(g) ==> mapeq(g)
+//@   ensures[C09:new-value-keys-have-no-group] newKeysShaped(cw, decorated)
+//@   loop range rs.As #1: invariant[C09:new-value-keys-have-no-group-so-far] forall k2 key :: k2 in m && !old(k2 in m) ==> k2.group == ""
+//@   loop range rs.As #1: invariant[C09:as-keys-so-far] k in m && m[k] == v && (forall i int :: 0 <= i && i < $i ==> vkey(rs.As[i], rs.Name) in m && m[vkey(rs.As[i], rs.Name)] == v)
+//@   loop range rs.As #1: invariant[C09:only-declared-keys-so-far] forall k2 key :: k2 != k && (forall i int :: 0 <= i && i < $i ==> k2 != vkey(rs.As[i], rs.Name)) ==> (k2 in m <==> old(k2 in m)) && m[k2] == old(m[k2])
+//@   loop range rs.As #1: invariant[C07:as-loop-writes-own-maps] wrValues(cw, decorated) && wrGroups(cw, decorated) && (forall g map[key][]reflect.Value :: existed(g) ==> mapeq(g))
+
+// group members are only ever appended: no group gets shorter
+//@ pure func onlyAppends(g map[key][]reflect.Value) Bool = forall k2 key :: len(g[k2]) >= len(old(g[k2]))
+
+//@ func (s *Scope) submitGroupedValue(name, t, v) ()
+//@   requires s != nil
+//@   modifies map(Scope.groups), elems(reflect.Value)
+//@   allocates
+//@   let k = gkey(t, name)
+//@   ensures[C10:submit-appends-one-member] k in s.groups && len(s.groups[k]) == len(old(s.groups[k])) + 1 && s.groups[k][len(s.groups[k]) - 1] == v
+//@   ensures[C10:submit-keeps-earlier-members] forall i int :: 0 <= i && i < len(old(s.groups[k])) ==> s.groups[k][i] == old(s.groups[k][i])
+//@   ensures[C10:submit-touches-one-key] forall k2 key :: k2 != k ==> (k2 in s.groups <==> old(k2 in s.groups)) && s.groups[k2] == old(s.groups[k2])
+//@   ensures[C07:submit-writes-own-map] forall m map[key][]reflect.Value :: existed(m) && m != s.groups ==> mapeq(m)
+
+//@ func (sr *stagingContainerWriter) submitGroupedValue(group, t, v) ()
+//@   requires sr != nil
+//@   modifies map(Scope.groups), elems(reflect.Value)
+//@   allocates
+//@   let k = gkey(t, group)
+//@   ensures[C10:stage-appends-one-member] k in sr.groups && len(sr.groups[k]) == len(old(sr.groups[k])) + 1 && sr.groups[k][len(sr.groups[k]) - 1] == v
+//@   ensures[C10:stage-keeps-earlier-members] forall i int :: 0 <= i && i < len(old(sr.groups[k])) ==> sr.groups[k][i] == old(sr.groups[k][i])
+//@   ensures[C10:stage-touches-one-key] forall k2 key :: k2 != k ==> (k2 in sr.groups <==> old(k2 in sr.groups)) && sr.groups[k2] == old(sr.groups[k2])
+//@   ensures[C07:stage-writes-own-map] forall m map[key][]reflect.Value :: existed(m) && m != sr.groups ==> mapeq(m)
+
+//@ func (rt resultGrouped) Extract(cw, decorated, v) ()
+//@   requires wfWriter(cw) && (is(cw, ptr(stagingContainerWriter)) ==> !decorated)
+//@   requires rt.Flatten && !decorated ==> valid(v) && kind(typ(v)) == kSlice()
+//@   modifies @written
+//@   allocates
+//@   let g = cwGroups(cw)
+//@   let k = gkey(rt.Type, rt.Group)
+//@   ensures[C07:extract-writes-own-maps] wrValues(cw, decorated) && wrGroups(cw, decorated)
+//@   ensures[C09:new-group-keys-have-no-name] newKeysShaped(cw, decorated)
+//@   ensures[C10:no-member-lost] !decorated ==> onlyAppends(g)
+//@   ensures[C10:one-member-per-grouped-result] !decorated && !rt.Flatten ==> k in g && len(g[k]) >= len(old(g[k])) + 1
+//@   ensures[C10:exactly-one-member-without-as] !decorated && !rt.Flatten && len(rt.As) == 0 ==> len(g[k]) == len(old(g[k])) + 1
+//@        && (forall k2 key :: k2 != k ==> len(g[k2]) == len(old(g[k2])))
+//@   ensures[C10:as-groups-get-the-member] !decorated && !rt.Flatten ==> forall i int :: 0 <= i && i < len(rt.As) ==> len(g[gkey(rt.As[i], rt.Group)]) >= len(old(g[gkey(rt.As[i], rt.Group)])) + 1
+//@   ensures[C10:flatten-one-member-per-element] !decorated && rt.Flatten ==> len(g[k]) == len(old(g[k])) + vlen(v)
+//@        && (forall k2 key :: k2 != k ==> len(g[k2]) == len(old(g[k2])))
+//@   ensures[C12:decorated-group-stored-whole] decorated ==> k in as(cw, ptr(Scope)).decoratedGroups && as(cw, ptr(Scope)).decoratedGroups[k] == v
+//@   ensures[C10:grouped-result-feeds-no-value] !decorated ==> forall m map[key]reflect.Value :: existed(m) ==> mapeq(m)
+//@   loop range rt.As #1: invariant[C07:as-group-loop-writes-own-maps] wrValues(cw, decorated) && wrGroups(cw, decorated) && newKeysShaped(cw, decorated) && (forall m map[key]reflect.Value :: existed(m) ==> mapeq(m))
+//@   loop range rt.As #1: invariant[C10:as-loop-only-appends] onlyAppends(g)
+//@   loop range rt.As #1: invariant[C10:exactly-one-before-as] $i == 0 ==> len(g[k]) == len(old(g[k])) + 1 && (forall k2 key :: k2 != k ==> len(g[k2]) == len(old(g[k2])))
+//@   loop range rt.As #1: invariant[C10:as-groups-so-far] k in g && len(g[k]) >= len(old(g[k])) + 1
+//@        && (forall i int :: 0 <= i && i < $i ==> len(g[gkey(rt.As[i], rt.Group)]) >= len(old(g[gkey(rt.As[i], rt.Group)])) + 1)
+//@   loop for i < v.Len() #1: invariant[C10:flatten-so-far] 0 <= i && i <= vlen(v) && len(g[k]) == len(old(g[k])) + i && (forall k2 key :: k2 != k ==> len(g[k2]) == len(old(g[k2])))
+//@   loop for i < v.Len() #1: invariant[C07:flatten-loop-writes-own-maps] wrValues(cw, decorated) && wrGroups(cw, decorated) && newKeysShaped(cw, decorated) && (forall m map[key]reflect.Value :: existed(m) ==> mapeq(m))
+//@   site call (dig.containerWriter).submitGroupedValue #1: assert[C10:grouped-result-submitted-under-its-key] $arg0 == rt.Group && $arg1 == rt.Type && $arg2 == v
+//@   site call (dig.containerWriter).submitGroupedValue #2: assert[C10:as-group-gets-the-same-member] $arg0 == rt.Group && $arg1 == rt.As[$i] && $arg2 == v
+//@   site call (dig.containerWriter).submitGroupedValue #3: assert[C10:flatten-submits-element-i] $arg2 == vindex(v, i) && $arg0 == rt.Group && $arg1 == rt.Type
+
+//@ func (ro resultObject) Extract(cw, decorated, v) ()
+//@   requires wfWriter(cw) && (is(cw, ptr(stagingContainerWriter)) ==> !decorated)
+//@   requires forall j int :: 0 <= j && j < len(ro.Fields) ==> ro.Fields[j].Result != nil && !is(ro.Fields[j].Result, resultList)
+//@   modifies @written
+//@   allocates
+//@   ensures[C07:extract-writes-own-maps] wrValues(cw, decorated) && wrGroups(cw, decorated)
+//@   ensures[C09:object-new-keys-shaped] newKeysShaped(cw, decorated)
+//@   loop range ro.Fields #1: invariant[C07:object-loop-writes-own-maps] wrValues(cw, decorated) && wrGroups(cw, decorated) && newKeysShaped(cw, decorated)
+//@   site call (dig.result).Extract #1: assert[C15:field-result-extracts-its-own-field,C01:field-result-extracts-its-own-field] $recv == ro.Fields[$i].Result && $arg0 == cw && $arg1 == decorated
+//@   site call (reflect.Value).Field #1: assert[C15:result-field-by-field-index] $recv == v && $arg0 == ro.Fields[$i].FieldIndex
+
+//@ func (sr *stagingContainerWriter) Commit(cw) ()
+//@   requires sr != nil && wfWriter(cw) && is(cw, ptr(Scope))
+//@   requires (forall k key :: k in sr.values ==> k.group == "") && (forall k key :: k in sr.groups ==> k.name == "")
+//@   requires as(cw, ptr(Scope)).values != sr.values && as(cw, ptr(Scope)).decoratedValues != sr.values && as(cw, ptr(Scope)).decoratedGroups != sr.values && as(cw, ptr(Scope)).groups != sr.groups
+//@   modifies @written
+//@   allocates
+//@   let S = as(cw, ptr(Scope))
+//@   ensures[C01:commit-copies-every-staged-value] forall k key :: k in sr.values ==> k in S.values && S.values[k] == sr.values[k]
+//@   ensures[C01:commit-adds-only-staged-values] forall k key :: !(k in sr.values) ==> (k in S.values <==> old(k in S.values)) && S.values[k] == old(S.values[k])
+//@   ensures[C10:commit-appends-every-staged-member] forall k key :: len(S.groups[k]) == len(old(S.groups[k])) + (k in sr.groups ? len(sr.groups[k]) : 0)
+//@   ensures[C07:commit-writes-only-the-target] wrValues(cw, false) && wrGroups(cw, false)
+//@   loop range sr.values #1: invariant[C01:values-committed-so-far] (forall k key :: $seen[k] ==> k in sr.values && k in S.values && S.values[k] == sr.values[k])
+//@        && (forall k key :: !$seen[k] ==> (k in S.values <==> old(k in S.values)) && S.values[k] == old(S.values[k]))
+//@   loop range sr.values #1: invariant[C07:commit-values-loop-writes-only-the-target] wrValues(cw, false) && wrGroups(cw, false) && (forall g map[key][]reflect.Value :: existed(g) ==> mapeq(g))
+//@   loop range sr.groups #1: invariant[C10:groups-committed-so-far] (forall k key :: $seen[k] ==> k in sr.groups)
+//@        && (forall k key :: len(S.groups[k]) == len(old(S.groups[k])) + ($seen[k] ? len(sr.groups[k]) : 0))
+//@   loop range sr.groups #1: invariant[C07:commit-groups-loop-writes-only-the-target] wrValues(cw, false) && wrGroups(cw, false)
+//@   loop range sr.groups #1: invariant[C01:values-stay-committed] (forall k key :: k in sr.values ==> k in S.values && S.values[k] == sr.values[k])
+//@        && (forall k key :: !(k in sr.values) ==> (k in S.values <==> old(k in S.values)) && S.values[k] == old(S.values[k]))
+//@   loop range vs #1: invariant[C10:other-groups-committed] forall k2 key :: k2 != k ==> len(S.groups[k2]) == len(old(S.groups[k2])) + ($seen[k2] ? len(sr.groups[k2]) : 0)
+//@   loop range vs #1: invariant[C10:members-committed-so-far] len(S.groups[k]) == len(old(S.groups[k])) + $i
+//@   loop range vs #1: invariant[C10:current-group-is-staged] $seen[k] && k in sr.groups && vs == sr.groups[k] && k.name == ""
+//@   loop range vs #1: invariant[C10:seen-groups-are-staged] forall k2 key :: $seen[k2] ==> k2 in sr.groups
+//@   loop range vs #1: invariant[C07:commit-members-loop-writes-only-the-target] wrValues(cw, false) && wrGroups(cw, false)
+//@   loop range vs #1: invariant[C01:values-stay-committed-inner] (forall k2 key :: k2 in sr.values ==> k2 in S.values && S.values[k2] == sr.values[k2])
+//@        && (forall k2 key :: !(k2 in sr.values) ==> (k2 in S.values <==> old(k2 in S.values)) && S.values[k2] == old(S.values[k2]))
